@@ -304,3 +304,39 @@ def rule_tree_sem(ctx: RuleContext, p: Program, rid: str) -> None:
     ctx.check(not problem, rid, 'parser:ModelBuilder.build / _build_tree / _build_repeated_node', problem or 'ok',
               f'the tree-building half of ModelBuilder interpreted on mock parse results: {problem}', build.where,
               note=f'{cases} parse results x gap layouts: model mirrors the tree, one insertion that reads as the lexer tokens, leaves are the inserted objects in order')
+
+
+def rule_reg_sem(ctx: RuleContext, p: Program, rid: str) -> None:
+    """the two registration decorators, interpreted: GRAM-REG and the builder rules read `@token_model` / `@tree_model` as "this class is what
+    TOKEN_MODELS / TREE_MODELS hold under its RULE"; this rule decides that the decorators do exactly that"""
+    from .tokenstore import TS
+    ctx.rule(rid, 'the registration decorators token_model / tree_model, interpreted on mock classes: after decorating classes with the rules RA, RB '
+                  '(and a class whose rule name differs from its class name) the table of that kind maps each RULE to that very class, the other '
+                  'table is untouched, and each decorator returns the class it was given')
+    ts = TS(p)
+    m = p.module('models.internal.registry')
+    n = 0
+    for dec, table, other in (('token_model', 'TOKEN_MODELS', 'TREE_MODELS'), ('tree_model', 'TREE_MODELS', 'TOKEN_MODELS')):
+        f = p.func('models.internal.registry', dec)
+        it = possem.PosInterp(ts, [], module=m)
+        classes = [possem.Obj('Cls', {'RULE': r, '__name__': nm}, f'class {nm}') for r, nm in (('RA', 'Ra'), ('RB', 'Other'), ('lower_rule', 'LowerRule'))]
+        problem = ''
+        try:
+            for c in classes:
+                r = it.call_function(f, [c], {})
+                if r is not c:
+                    problem = f'{dec}(cls) returns {r!r}, not the class it decorates: the name of every decorated class is bound to that'
+                    break
+            t = it.expr(ast.parse(table, mode='eval').body, {})
+            o = it.expr(ast.parse(other, mode='eval').body, {})
+        except possem.Raised as ex:
+            problem = f'{dec} raises {ex}'
+        if not problem:
+            want = {c.f['RULE']: c for c in classes}
+            if not isinstance(t, dict) or set(t) != set(want) or any(t[k] is not want[k] for k in want):
+                problem = (f'after {dec} on classes with the rules {sorted(want)} the table {table} has the keys {sorted(map(str, t)) if isinstance(t, dict) else t!r}'
+                           f'{"" if not isinstance(t, dict) or set(t) != set(want) else " bound to other classes"}: the parser looks a model up by the name of the grammar rule / terminal')
+            elif o:
+                problem = f'{dec} also writes {other}'
+        n += 1
+        ctx.check(not problem, rid, f'models.internal.registry:{dec}', problem or 'ok', f'{dec}: {problem}', f.where, note=f'{table}[cls.RULE] is cls; returns cls')
